@@ -129,6 +129,10 @@ class Ref(object):
                     '\n  ' + (self.nodes([opt]) if opt is not None else '* ')
             if name in ('zz', 'label'):
                 return ''      # not in the text database: discarded together with its arguments
+            if name == 'hspace':
+                return ''      # documented replacement: nothing
+            if name == '\\':
+                return '\n'
             raise Unsupported(name)
         raise Unsupported(k)
 
